@@ -400,7 +400,7 @@ def shard(args) -> Acc:
 
 def run(tier: str, seed: int, workers: int):
     shards = []
-    nmax = 5 if tier == "quick" else 7
+    nmax = 5 if tier == "quick" else 8
     step = 60
     for n in range(1, nmax + 1):
         total = len([f for f in _forest(n, None) if chp_ok(f)])
@@ -412,7 +412,7 @@ def run(tier: str, seed: int, workers: int):
         random.Random(seed).shuffle(shards)
     acc = pmap_acc(shard, shards, workers)
     meta = {
-        "rule": "every forest of subtrees below the grid connection with up to 5 (quick) / 7 (thorough) nodes from {meter with any children, "
+        "rule": "every forest of subtrees below the grid connection with up to 5 (quick) / 8 (thorough) nodes from {meter with any children, "
         "battery inverter with 1 or 2 batteries, two battery inverters sharing one battery, PV inverter, EV charger, CHP below a CHP-only meter}, unlabelled-isomorphic duplicates "
         "removed, each with two component-id assignments and with allow_fallback off and on, and once on a graph object that held the "
         "preceding topology of the enumeration, generated all formulas for it and was then refreshed (refresh_from); graphs the real validation rejects are "
